@@ -81,7 +81,8 @@ def concretizeAll : AbstractModel → List AEdit → Option (List CEdit)
   | _, [] => some []
   | m, e :: rest => do
     let c ← concretize m e
-    let m' ← applyEdit m e
+    -- an edit the specification rejects (outside the quantifier) leaves the abstract state as it is
+    let m' := (applyEdit m e).getD m
     let cs ← concretizeAll m' rest
     some (c :: cs)
 
